@@ -486,7 +486,7 @@ func c14Required(c *Ctx) {
 	var firstWrite ssa.Instruction
 	eachInstr(cl, func(i ssa.Instruction) {
 		if st, ok := i.(*ssa.Store); ok {
-			if fa, ok := st.Addr.(*ssa.FieldAddr); ok && fa.X == ssa.Value(cl.Params[0]) {
+			if fa, ok := st.Addr.(*ssa.FieldAddr); ok && fa.X == ssa.Value(userParam(cl, 0)) {
 				if firstWrite == nil || instrDominates(st, firstWrite) {
 					firstWrite = st
 				}
@@ -992,7 +992,7 @@ func runC15(c *Ctx) {
 					for _, r := range refs(ia) {
 						if ld, isL := r.(*ssa.UnOp); isL {
 							for _, rr := range refs(ld) {
-								if st, isSt := rr.(*ssa.Store); isSt && st.Addr == ssa.Value(cl.Params[0]) {
+								if st, isSt := rr.(*ssa.Store); isSt && st.Addr == ssa.Value(userParam(cl, 0)) {
 									found = true
 								}
 							}
